@@ -97,7 +97,7 @@ def init_s8():
     add_check_array(chars, s8)
     for lenmod8 in (1, 2, 3, 4, 5, 6, 7,):
         if NUM_QS_LEGIT[lenmod8]:
-            add_check_array(get_trailing_chars_without_lsbs(4-(NUM_QS_TO_NUM_BITS[lenmod8]%5)), s8)
+            add_check_array(get_trailing_chars_without_lsbs(5-(NUM_QS_TO_NUM_BITS[lenmod8]%5)), s8)
         else:
             add_check_array(b'', s8)
     return tuple(s8)
